@@ -147,7 +147,7 @@ Qed.
 Lemma find_end_correct : forall pred l s, find_end_m pred l s = Ok (find_end_s pred l s).
 Proof.
   intros pred l s. unfold find_end_m, find_end_s. destruct s as [|y s']; [reflexivity|].
-  rewrite find_end_loop_correct by (try discriminate; lia). f_equal. apply last_sat_ext. reflexivity.
+  rewrite find_end_loop_correct by (try discriminate; lia). reflexivity.
 Qed.
 
 (* ------------------------------------------------------------------ search_n *)
@@ -212,7 +212,7 @@ Proof.
       rewrite (least_skip (S (length g)) (run_at pred v (Z.to_nat count) (g ++ x :: t))).
       * rewrite app_length. cbn [length].
         replace (length g + S (length t) - S (length g)) with (length t) by lia.
-        rewrite (least_ext _ (run_at pred v (Z.to_nat count) t)).
+        rewrite (least_ext (fun j => run_at pred v (Z.to_nat count) (g ++ x :: t) (S (length g) + j)) (run_at pred v (Z.to_nat count) t)).
         -- lia.
         -- intros j _. replace (g ++ x :: t) with ((g ++ [x]) ++ t) by (rewrite <- app_assoc; reflexivity).
            replace (S (length g) + j) with (length (g ++ [x]) + j) by (rewrite app_length; cbn [length]; lia).
@@ -241,10 +241,7 @@ Proof.
   - cbn [isu_loop]. cbn [length]. rewrite least_S. cbn [firstn sorted_adj negb]. rewrite least_S.
     change (sorted_adj lt (firstn 2 (x :: y :: t))) with (negb (lt y x) && true).
     rewrite andb_true_r, negb_involutive. destruct (lt y x) eqn:Hyx; [reflexivity|].
-    rewrite IH. cbn [length]. rewrite least_S. cbn [firstn sorted_adj negb]. do 2 f_equal.
-    apply least_ext. intros j _.
-    change (sorted_adj lt (firstn (S (S (S j))) (x :: y :: t))) with (negb (lt y x) && sorted_adj lt (firstn (S (S j)) (y :: t))).
-    rewrite Hyx. reflexivity.
+    rewrite IH. cbn [length]. rewrite least_S. cbn [firstn sorted_adj negb]. reflexivity.
 Qed.
 
 Lemma is_sorted_until_correct : forall lt l, strict_weak lt ->
